@@ -16,7 +16,7 @@ pub fn prop() -> Prop {
     Prop {
         id: "C14",
         level: "exploration",
-        rule: "complete tables: each of the 7 builtins x a 70-value alphabet covering every type (null, both bools, boundary integers, floats incl. signed zero, tiny, huge, infinities and NaN, numeric / padded / signed / exponent / empty / non-ASCII text, empty and nested arrays, named and anonymous functions) with 1 argument; x a 12-value subset squared and cubed with 2 and 3 arguments; with no argument; identity t(v) for v of type t; round trips int(string(i)) for every i of the integer lattice and float(string(x)) for every float of the alphabet and every lattice integer below 2^53; print with every format string of <= 4 pieces over {{}, {, }, a, space} x 0..4 further arguments drawn from 5 values, and with a first argument of every type. Oracle: the reference functions of the model (U11 leniency for non-canonical number spellings). Non-trivial = the model defines the outcome; distinct = distinct texts",
+        rule: "complete tables: each of the 7 builtins x a 70-value alphabet covering every type (null, both bools, boundary integers, floats incl. signed zero, tiny, huge, infinities and NaN, numeric / padded / signed / exponent / empty / non-ASCII text, empty and nested arrays, named and anonymous functions) with 1 argument; x a 12-value subset squared and cubed with 2 and 3 arguments; with no argument; identity t(v) for v of type t; round trips int(string(i)) for every i of the integer lattice and float(string(x)) for every float of the alphabet and every lattice integer below 2^53; magnitude ladders (floats m x 10^k for |k| <= 40 and m x 2^k for |k| <= 70, integers 10^k and neighbours, digit strings of 1..24 digits, print with N placeholders for N up to 253 and N-1 / N / N+1 arguments); print with every format string of <= 4 pieces over {{}, {, }, a, space} x 0..4 further arguments drawn from 5 values, and with a first argument of every type. Oracle: the reference functions of the model (U11 leniency for non-canonical number spellings). Non-trivial = the model defines the outcome; distinct = distinct texts",
         assumptions: &["reference builtins of refint.rs (DESIGN 4.2 Builtins)", "U11: non-canonical number spellings (padding, +5, 1e5, inf, nan) are not compared"],
         run,
         replay,
@@ -178,6 +178,59 @@ fn run(sh: &mut Shard) {
             case(sh, "print-format", vec![es(calln("print", a))]);
         }
     }
+    // magnitude ladders: every decimal and binary order of magnitude, every digit count
+    for k in -40i32..=40 {
+        for m in [1.0f64, 3.0, 9.99, 1.0 / 3.0] {
+            for sign in [1.0f64, -1.0] {
+                let x = sign * m * 10f64.powi(k);
+                case(sh, "magnitude", vec![es(calln("string", vec![float_expr(x)]))]);
+                case(sh, "magnitude", vec![es(infix(calln("float", vec![calln("string", vec![float_expr(x)])]), Operator::Eq, float_expr(x)))]);
+                case(sh, "magnitude", vec![es(calln("int", vec![float_expr(x)]))]);
+                case(sh, "magnitude", vec![es(calln("print", vec![string("{} {}"), float_expr(x), array(vec![float_expr(x)])]))]);
+            }
+        }
+    }
+    for k in -70i32..=70 {
+        for m in [1.0f64, 1.5, 1.0000000000000002] {
+            let x = m * 2f64.powi(k);
+            case(sh, "magnitude", vec![es(calln("string", vec![float_expr(x)]))]);
+            case(sh, "magnitude", vec![es(infix(calln("float", vec![calln("string", vec![float_expr(x)])]), Operator::Eq, float_expr(x)))]);
+            case(sh, "magnitude", vec![es(calln("int", vec![float_expr(-x)]))]);
+        }
+    }
+    for k in 0..=18u32 {
+        for off in [-1i64, 0, 1] {
+            for sign in [1i64, -1] {
+                let i = sign * (10i64.pow(k) + off);
+                if i.abs() >= (1 << 60) {
+                    continue;
+                }
+                case(sh, "magnitude", vec![es(calln("string", vec![lit_expr(i)]))]);
+                case(sh, "magnitude", vec![es(infix(calln("int", vec![calln("string", vec![lit_expr(i)])]), Operator::Eq, lit_expr(i)))]);
+                case(sh, "magnitude", vec![es(calln("float", vec![lit_expr(i)]))]);
+                case(sh, "magnitude", vec![es(calln("print", vec![string("{}|{}"), lit_expr(i), array(vec![lit_expr(i), lit_expr(-i)])]))]);
+            }
+        }
+    }
+    // digit strings of every length (the range ends lie at 19 digits), fractions of every length
+    for len in 1..=24usize {
+        for first in ['1', '9'] {
+            let digits: String = std::iter::once(first).chain((1..len).map(|i| (b'0' + (i % 10) as u8) as char)).collect();
+            case(sh, "magnitude", vec![es(calln("int", vec![string(&digits)]))]);
+            case(sh, "magnitude", vec![es(calln("int", vec![string(&format!("-{digits}"))]))]);
+            case(sh, "magnitude", vec![es(calln("float", vec![string(&format!("0.{digits}"))]))]);
+            case(sh, "magnitude", vec![es(calln("float", vec![string(&format!("{digits}.5"))]))]);
+        }
+    }
+    // print with N placeholders and N, N-1, N+1 arguments (the call instruction carries at most 255)
+    for n in [1usize, 2, 3, 5, 7, 8, 9, 15, 16, 17, 31, 32, 33, 63, 64, 65, 127, 128, 129, 200, 253] {
+        for delta in [-1i64, 0, 1] {
+            let nargs = (n as i64 + delta).max(0) as usize;
+            let mut a = vec![string(&"{}-".repeat(n))];
+            a.extend((0..nargs).map(|i| if i % 2 == 0 { int(i as i64) } else { string(&format!("s{i}")) }));
+            case(sh, "magnitude", vec![es(calln("print", a))]);
+        }
+    }
     for v in &big {
         case(sh, "print-first", vec![es(calln("print", vec![v.clone(), int(1), string("x")]))]);
         case(sh, "print-first", vec![es(calln("print", vec![string("<{}> <{}>"), v.clone(), v.clone()]))]);
@@ -192,7 +245,7 @@ fn replay(sh: &mut Shard, case: &Value) {
 }
 
 fn vacuity(m: &Merged) -> Option<String> {
-    for fam in ["arity-0", "unary", "idempotent", "binary", "ternary", "roundtrip-int", "roundtrip-float", "print-format", "print-first"] {
+    for fam in ["magnitude", "arity-0", "unary", "idempotent", "binary", "ternary", "roundtrip-int", "roundtrip-float", "print-format", "print-first"] {
         if m.counters.get(&format!("family:{fam}")).copied().unwrap_or(0) == 0 {
             return Some(format!("family {fam} produced no case"));
         }
